@@ -30,7 +30,8 @@ const Rule = "cases = (register kinds: u unordered, s stable, sorted with compar
 	"Contains, operands of Union/Intersection/Difference) is a private copy that the harness overwrites and appends to right after the call; " +
 	"iterators used as a for-range loop does not: all2 (one iter.Seq run, another set traversed, the same Seq run again), allnest (All() inside All(), " +
 	"also of the same set), allpull (two iter.Pull iterators, also over the same set, advanced alternately), allbreak (a traversal abandoned " +
-	"half-way, then a full one); deterministic size families on every check: fam=size (per implementation 63-65, 255-257, 1023-1025 members " +
+	"half-way, then a full one), allthen / allrerun (a sequence obtained, [run,] the set changed by Add/Remove/RemoveAll, the sequence run: a sequence is a handle on its set, " +
+	"every run lists — and for the unordered set shuffles, one draw — the members the set has then), allnever (a sequence obtained and never run: no draw); deterministic size families on every check: fam=size (per implementation 63-65, 255-257, 1023-1025 members " +
 	"— thorough also 127-129, 511-513, 2047-2049, 4097 and all 7 comparators x 4 ways of building (one Add per value ascending / descending / evens then " +
 	"odds, one variadic Add) x 4 ways of shrinking (one Remove per value from the front / from the second-to-last member down / every second, one " +
 	"variadic Remove) — down to a fifth, to nothing, and up again: after EVERY single Add/Remove of addseq/removeseq Size and Contains of the value, its " +
@@ -792,6 +793,92 @@ func execCase(c hx.Case, pub *published) {
 						tags["set-size>"+strconv.Itoa(t)] = true
 					}
 				}
+				nontrivial = true
+			case "allthen", "allrerun", "allnever":
+				// a sequence is a handle on its set: allthen i <mutation> = seq := All(); mutate; run seq (the run lists the
+				// members the set has THEN); allrerun i <mutation> = seq := All(); run; mutate; run again; allnever i = a
+				// sequence obtained and never run (nothing is drawn from the shuffle source). <mutation> = add v… |
+				// remove v… | removeall
+				if len(f) < 2 {
+					return
+				}
+				k := reg(f[1])
+				if k < 0 {
+					return
+				}
+				s, o := regs[k], orc[k]
+				opMode()
+				seq := s.All()
+				if f[0] == "allnever" {
+					if len(f) != 2 {
+						return
+					}
+					_ = seq
+					out = "ok"
+					tags[f[0]] = true
+					return
+				}
+				if len(f) < 3 {
+					return
+				}
+				vs, ok := ints(f[3:])
+				if !ok || (f[2] != "add" && f[2] != "remove" && f[2] != "removeall") || (f[2] == "removeall" && len(vs) > 0) {
+					return
+				}
+				collect := func() []int {
+					var xs []int
+					for v := range seq {
+						xs = append(xs, v)
+					}
+					return xs
+				}
+				canon := func(ms []int) string {
+					if o.kind == 'u' {
+						return intsStr(sortedCopy(ms))
+					}
+					return intsStr(ms)
+				}
+				judge := func(what string, ms []int) {
+					if !sameInts(sortedCopy(ms), o.sortedAsc()) {
+						bad(i, "%s yields %v, the set is %v", what, ms, o.sortedAsc())
+					} else if exp := o.expectedOrder(); exp != nil && !sameInts(ms, exp) {
+						bad(i, "%s of kind %c yields %v, required order %v", what, o.kind, ms, exp)
+					}
+				}
+				dst = k
+				outs := ""
+				if f[0] == "allrerun" {
+					before := collect()
+					judge("All(), run before the change,", before)
+					outs = " " + canon(before)
+				}
+				arg := append([]int{}, vs...)
+				switch f[2] {
+				case "add":
+					s.Add(arg...)
+					for _, v := range vs {
+						o.add(v)
+					}
+				case "remove":
+					s.Remove(arg...)
+					for _, v := range vs {
+						if o.m[v] {
+							tags["remove-hit"] = true
+						}
+						o.remove(v)
+					}
+				default:
+					s.RemoveAll()
+					o.m = map[int]bool{}
+					o.order = nil
+				}
+				scribble(arg)
+				after := collect()
+				judge("a sequence obtained before "+f[2]+" and run after it", after)
+				out = "ok" + outs + " " + canon(after)
+				agree(i, "after "+f[0]+" the set", s, o)
+				tags[f[0]] = true
+				tags[f[0]+"-"+f[2]] = true
 				nontrivial = true
 			case "all2", "allnest", "allpull", "allbreak":
 				// iterators used in the ways a for-range loop does not: the same iter.Seq run twice (with a traversal
@@ -1764,6 +1851,33 @@ func (g *gen) step(maxPow, maxPart int) {
 			g.emit("allpull %d %d", k, j)
 		case 3:
 			g.emit("allbreak %d %d", k, r.Intn(4))
+		case 4:
+			g.emit("allnever %d", k)
+		case 5, 6:
+			form := hx.Pick(r, []string{"allthen", "allrerun"})
+			switch r.Intn(5) {
+			case 0:
+				g.sets[k] = map[int]bool{}
+				g.emit("%s %d removeall", form, k)
+			case 1, 2:
+				vs := g.vals(1, 3)
+				for _, v := range vs {
+					g.sets[k][v] = true
+				}
+				g.emit("%s %d add%s", form, k, join(vs))
+			default:
+				vs := g.vals(1, 2)
+				if v, ok := g.member(k); ok {
+					vs[0] = v
+				}
+				if v, ok := g.member(k); ok && r.Bool() {
+					vs = append(vs, v)
+				}
+				for _, v := range vs {
+					delete(g.sets[k], v)
+				}
+				g.emit("%s %d remove%s", form, k, join(vs))
+			}
 		default:
 			g.emit("all %d", k)
 		}
@@ -2353,6 +2467,17 @@ func iterCase(sh uint32, kinds string, n0, n1 int) hx.Case {
 			emit("allnest %d %d", p[0], p[1])
 		}
 	}
+	emit("allnever 0")
+	emit("allthen 0 add 1000 1001")
+	emit("allthen 0 remove 0 3 1000")
+	emit("allrerun 1 remove -2 0 2")
+	emit("allrerun 1 add -2 0 2 77")
+	emit("allthen 2 remove 1 2 3")
+	emit("allrerun 2 removeall")
+	emit("allthen 2 add 4 1 3 2")
+	emit("allthen 3 add 5")
+	emit("allrerun 3 removeall")
+	emit("allnever 3")
 	emit("allbreak 0 2")
 	emit("allbreak 1 0")
 	emit("allbreak 1 %d", n1)
